@@ -66,6 +66,7 @@ JudgeMergeS(e) ==
 
 Judge(e) == CASE e.ev = "rules" -> <<>>
               [] e.ev = "merge_s" -> JudgeMergeS(e)
+              [] e.ev = "merge_u" -> Common(e)      \* end fragment + middle fragment: the atom bookkeeping with the reported rules
               [] e.ev = "merge1m" -> JudgeMerge1m(e)
               [] e.ev = "merge2" -> JudgeMerge2(e)
               [] e.ev = "merge1" -> JudgeMerge1(e)
